@@ -6,14 +6,15 @@ package keeper
 
 import (
 	"context"
+	"strings"
 
 	storetypes "cosmossdk.io/store/types"
 	"github.com/cosmos/cosmos-sdk/codec"
 	codectypes "github.com/cosmos/cosmos-sdk/codec/types"
 	sdk "github.com/cosmos/cosmos-sdk/types"
-	paramtypes "github.com/cosmos/cosmos-sdk/x/params/types"
 	authtypes "github.com/cosmos/cosmos-sdk/x/auth/types"
 	banktypes "github.com/cosmos/cosmos-sdk/x/bank/types"
+	paramtypes "github.com/cosmos/cosmos-sdk/x/params/types"
 
 	"github.com/osmosis-labs/osmosis/osmomath"
 	"github.com/osmosis-labs/osmosis/v31/x/tokenfactory/types"
@@ -148,7 +149,7 @@ func c20NonAdmin(renounced bool) {
 	w.unchanged("SetDenomMetadata")
 }
 
-func VH_C20_tf_non_admin_rejected()       { c20NonAdmin(false) }
+func VH_C20_tf_non_admin_rejected()          { c20NonAdmin(false) }
 func VH_C20_tf_renounced_admin_rejects_all() { c20NonAdmin(true) }
 
 // creating a denom always lands in the sender's own namespace
@@ -170,9 +171,67 @@ func VH_C20_tf_existing_denom_cannot_be_recreated() {
 	vOverride("(github.com/osmosis-labs/osmosis/v31/x/tokenfactory/keeper.Keeper).GetParams", c20ParamsStub)
 	vReach("reach")
 	var err error
-	p := vPanics(func() { _, err = w.srv.CreateDenom(w.ctx, &types.MsgCreateDenom{Sender: c20Creator, Subdenom: "token"}) })
+	p := vPanics(func() {
+		_, err = w.srv.CreateDenom(w.ctx, &types.MsgCreateDenom{Sender: c20Creator, Subdenom: "token"})
+	})
 	vAssert(p || err != nil, "CreateDenom:rejected-for-existing-denom")
 	md, gerr := w.k.GetAuthorityMetadata(w.ctx, c20DenomStr)
 	vAssert(gerr == nil && md.Admin == w.admin, "authority-record-unchanged")
 	vAssert(len(*w.calls) == 0, "no-bank-mutation")
+}
+
+// ---------------------------------------------------------------- module accounts are out of an admin's reach
+
+// the lockup module account's address string: natively its real bech32 form; under the engine a stand-in that the
+// decoding stub maps (case-insensitively, as bech32 does for single-case strings) to the module account's bytes
+func c20ModuleAddrString() string {
+	if vNative() {
+		return sdk.AccAddress(authtypes.NewModuleAddress("lockup")).String()
+	}
+	return "osmo1lockupmoduleaccountstandin"
+}
+
+func c20AddrStubModules(address string) (sdk.AccAddress, error) {
+	if address == "" {
+		return nil, types.ErrUnauthorized
+	}
+	if strings.ToLower(address) == "osmo1lockupmoduleaccountstandin" {
+		return sdk.AccAddress(authtypes.NewModuleAddress("lockup")), nil
+	}
+	return sdk.AccAddress("acct:" + address), nil
+}
+
+func c20AddrStringModules(aa sdk.AccAddress) string {
+	if strings.HasPrefix(string(aa), "acct:") {
+		return string(aa)[5:]
+	}
+	return "osmo1lockupmoduleaccountstandin"
+}
+
+// even the denom's admin cannot force-transfer out of or into a module account, however its address is spelled
+func VH_C20_tf_admin_cannot_reach_module_accounts() {
+	w := c20Setup(false)
+	vOverride("github.com/cosmos/cosmos-sdk/types.AccAddressFromBech32", c20AddrStubModules)
+	vOverride("(github.com/cosmos/cosmos-sdk/types.AccAddress).String", c20AddrStringModules)
+	mod := c20ModuleAddrString()
+	w.k.permAddrs["lockup"] = authtypes.NewPermissionsForAddress("lockup", nil)
+	w.k.permAddrMap[mod] = true
+	w.srv = NewMsgServerImpl(w.k)
+	spelled := mod
+	if vChoose("spelling", 2) == 1 {
+		spelled = strings.ToUpper(mod)
+	}
+	user := vAddrTable[2]
+	from, to := spelled, user
+	if vChoose("direction", 2) == 1 {
+		from, to = user, spelled
+	}
+	amt := osmomath.NewIntFromBigInt(vNondetBigRange("amount", osmomath.NewInt(1).BigInt(), osmomath.NewInt(1000000000000).BigInt()))
+	vReach("reach")
+	_, err := w.srv.ForceTransfer(w.ctx, &types.MsgForceTransfer{Sender: w.admin, Amount: sdk.NewCoin(c20DenomStr, amt), TransferFromAddress: from, TransferToAddress: to})
+	vAssert(err != nil, "ForceTransfer:module-account-refused")
+	vAssert(len(*w.calls) == 0, "ForceTransfer:no-bank-mutation")
+	// between two ordinary accounts the admin's transfer goes through (the guard is not a blanket refusal)
+	_, err2 := w.srv.ForceTransfer(w.ctx, &types.MsgForceTransfer{Sender: w.admin, Amount: sdk.NewCoin(c20DenomStr, amt), TransferFromAddress: vAddrTable[1], TransferToAddress: user})
+	vAssert(err2 == nil && len(*w.calls) == 1, "ForceTransfer:ordinary-accounts-allowed")
 }
